@@ -276,7 +276,10 @@ func (u *Universe) boxFn(sortName string) (box, unbox string) {
 	box = "box$" + key
 	unbox = "unbox$" + key
 	u.uf(box, fmt.Sprintf("(declare-fun %s (%s) Int)", box, sortName))
-	u.uf(unbox, fmt.Sprintf("(declare-fun %s (Int) %s)", unbox, sortName))
+	if _, ok := u.ufs[unbox]; !ok {
+		u.uf(unbox, fmt.Sprintf("(declare-fun %s (Int) %s)", unbox, sortName))
+		u.axioms = append(u.axioms, fmt.Sprintf("(assert (forall ((x!b %s)) (! (= (%s (%s x!b)) x!b) :pattern ((%s x!b)))))", sortName, unbox, box, box))
+	}
 	return
 }
 
